@@ -104,4 +104,107 @@ for call in ('commit', 'abort'):
                     decided += 1
 if decided == 0:
     ck.inconclusive.append('vacuous: logged-decision obligation never instantiated')
-ck.functions += ['DistributedTxCoordinator::commit', 'DistributedTxCoordinator::abort', 'DistributedTxCoordinator::log_wal_entry', 'TxRecoveryState::from_wal']
+# ------------------------------------------------------------------ X2: what record_vote makes durable agrees with what it decides
+# The last vote of a two-participant transaction arrives (kind symbolic); the cross-shard conflict test is arbitrary
+# (merged_delta / cosine similarity / key overlap free), so an all-Yes transaction ends Prepared or Aborting.  The log is
+# real.  After the call the file is reopened and the real from_wal classifies the transaction:
+#   in-memory Prepared            => recovered as prepared (the phase record was durable before the state change)
+#   in-memory Aborting / refused  => NOT recovered as prepared or committing: a restart cannot make committable what the
+#                                    coordinator has decided to abort.
+ck.declare('X2_vote_outcome_matches_log', 'record_vote of the second of two participants (Yes/No/Conflict), first vote Yes already logged; conflict test arbitrary; real log, reopen, real from_wal',
+           'phase Prepared in memory <=> the transaction is recovered as prepared; after a decision to abort (or a refused/failed call) recovery never returns it as prepared or committing')
+PV_ALL = {n: P.variant_index('PrepareVote', n) for n in ('Yes', 'No', 'Conflict')}
+
+
+def x_merged(c):
+    d = z3.BitVec(c.st.fresh_name('merged'), 64)
+    c.st.assume(z3.Or(d == 0, d == 1))
+    return Enum('Option<DeltaVector>', d, {('Some', 0): Opaque('DeltaVector')})
+
+
+exd.extra_models.update({
+    'DistributedTransaction::merged_delta': x_merged,
+    'DeltaVector::cosine_similarity': lambda c: Flt(z3.FP(c.st.fresh_name('cos'), z3.Float32())),
+    '<DeltaVector as Clone>::clone': lambda c: c.args[0].load(c.st),
+    '<DistributedTransaction as Clone>::clone': lambda c: (lambda t: Struct(t.ty, dict(t.fields), t.lazy))(c.args[0].load(c.st)),
+})
+x2n = {'Prepared': 0, 'Aborting': 0, 'other': 0}
+st = exd.new_state()
+st.env['codec_len'] = 2
+st.env['crc_nonzero'] = True
+txid, s0, s1, h0 = (z3.BitVec(n, 64) for n in ('txid', 'shard0', 'shard1', 'handle0'))
+st.assume(s0 != s1)
+opened = scd.open(st, 'tx log (X2)')
+if len(opened) == 1 and opened[0][1] is not None:
+    st = opened[0][0]
+    okk = True
+    for i, rc in enumerate([E('TxBegin', Int(txid, False), Seq('usize', [Int(s0, False), Int(s1, False)])),
+                            E('PrepareVote', Int(txid, False), Int(s0, False), Enum('PrepareVoteKind', 0, {('Yes', 0): Int(h0, False)}, variant='Yes'))]):
+        outs = scd.append(st, rc, f'X2 history record {i}')
+        good = [o for o in outs if o[1] is None]
+        if len(good) != 1:
+            okk = False
+            break
+        st = good[0][0]
+    if not okk:
+        ck.inconclusive.append('X2: could not write the history records')
+    else:
+        walobj = st.roots['wal'].load(st)
+        vote0 = Enum('PrepareVote', PVY, {('Yes', 0): Int(h0, False), ('Yes', 1): Struct('DeltaVector', {}, lazy='vd0')}, variant='Yes')
+        tx = Struct('DistributedTransaction', {
+            F13('DistributedTransaction', 'tx_id'): Int(txid, False),
+            F13('DistributedTransaction', 'participants'): Seq('usize', [Int(s0, False), Int(s1, False)]),
+            F13('DistributedTransaction', 'phase'): Enum('TxPhase', PH['Preparing'], {}, variant='Preparing'),
+            F13('DistributedTransaction', 'votes'): Map('usize', 'PrepareVote', [Int(s0, False)], [vote0]),
+            F13('DistributedTransaction', 'deltas'): Map('usize', 'DeltaVector', [Int(s0, False)], [Struct('DeltaVector', {}, lazy='d0')]),
+        }, lazy='TX')
+        co = Struct('DistributedTxCoordinator', {
+            F13('DistributedTxCoordinator', 'pending'): Struct('RwLock', {'data': Cell(val=Map('u64', 'DistributedTransaction', [Int(txid, False)], [tx]))}),
+            F13('DistributedTxCoordinator', 'pending_aborts'): Struct('RwLock', {'data': Cell(val=Seq('(u64, String, Vec<usize>)', []))}),
+            F13('DistributedTxCoordinator', 'wal'): _some(Struct('RwLock', {'data': Cell(val=walobj)}), 'std::option::Option<RwLock<TxWal>>'),
+        }, lazy='CO')
+        st.roots['co'] = co
+        vk = z3.BitVec('vote_kind', 64)
+        st.assume(z3.Or([vk == d for d in PV_ALL.values()]))
+        vote1 = Enum('PrepareVote', vk, {('Yes', 0): Int(z3.BitVec('handle1', 64), False), ('Yes', 1): Struct('DeltaVector', {}, lazy='vd1'),
+                                         ('No', 0): Str(z3.BitVec('reason1', 64)), ('Conflict', 0): Flt(z3.FP('sim1', z3.Float32())), ('Conflict', 1): Int(z3.BitVec('ctx1', 64), False)})
+        res = scd.run(st, 'DistributedTxCoordinator::record_vote', [ref(co), Int(txid, False), Int(s1, False), vote1])
+        ck.note_path_problem(res, 'X2 record_vote')
+        for r in res:
+            wit = lambda m, r=r: {'vote_outcome': True, 'vote_kind': mval(m, vk), 'final_phase': None}
+            if r.status == 'panic':
+                ck.require(exd, 'X2_vote_outcome_matches_log', r.pc, None, z3.BoolVal(False), wit, lambda m, w: 'vote-panic')
+                continue
+            if r.status != 'return':
+                continue
+            f = r.st
+            pend = f.roots['co'].fields[F13('DistributedTxCoordinator', 'pending')].fields['data'].val
+            ph = pend.vals[0].load(F13('DistributedTransaction', 'phase'), None, f)
+            phd = ph.disc if not isinstance(ph.disc, int) else z3.BitVecVal(ph.disc, 64)
+            s3 = scd.crash(f, len(scd.file(f).data))
+            for (s4, wp4, e4) in scd.open(s3, 'X2 reopen'):
+                if wp4 is None:
+                    ck.require(exd, 'X2_vote_outcome_matches_log', s4.pc, None, z3.BoolVal(False), wit, lambda m, w: 'vote-reopen')
+                    continue
+                rr = scd.run(s4, 'TxRecoveryState::from_wal', [s4.roots['wal']])
+                ck.note_path_problem(rr, 'X2 from_wal')
+                for r5 in rr:
+                    if r5.status != 'return' or r5.retval.variant != 'Ok':
+                        continue
+                    rs = r5.retval.fields[('Ok', 0)]
+                    n_prep = len(rs.load(FS('prepared_txs'), None, r5.st).items(r5.st))
+                    n_comm = len(rs.load(FS('committing_txs'), None, r5.st).items(r5.st))
+                    is_prepared = phd == PH['Prepared']
+                    concl = z3.And(z3.Implies(is_prepared, z3.BoolVal(n_prep == 1)), z3.Implies(z3.Not(is_prepared), z3.BoolVal(n_prep == 0 and n_comm == 0)))
+                    ck.require(exd, 'X2_vote_outcome_matches_log', r5.pc, None, concl,
+                               lambda m, r=r, phd=phd, n_prep=n_prep: {'vote_outcome': True, 'vote_kind': mval(m, vk), 'final_phase': mval(m, phd), 'recovered_prepared': n_prep},
+                               lambda m, w: 'vote-log-mismatch')
+                    for nm in ('Prepared', 'Aborting'):
+                        if exd.solver.check(r5.pc, phd == PH[nm]) == z3.sat:
+                            x2n[nm] += 1
+else:
+    ck.inconclusive.append('X2: initial open failed')
+if x2n['Prepared'] == 0 or x2n['Aborting'] == 0:
+    ck.inconclusive.append(f'vacuous: X2 reached Prepared on {x2n["Prepared"]} paths and Aborting on {x2n["Aborting"]}')
+ck.notes.append(f'X2: {x2n}')
+ck.functions += ['DistributedTxCoordinator::record_vote', 'DistributedTxCoordinator::commit', 'DistributedTxCoordinator::abort', 'DistributedTxCoordinator::log_wal_entry', 'TxRecoveryState::from_wal']
